@@ -22,9 +22,9 @@ C = [-1., -.5, .5, 1., 2., .25, 0., 0.]
 
 @st.composite
 def cases(draw, tier):
-    r = draw(gentopo.recipes(kinds=['line', 'rect', 'rect', 'tri', 'tri', 'mixed', 'multipatch', 'periodic', 'rect3', 'simplex3'], maxops=2, ops=('refine', 'refined_by', 'refined_by'), maxn=2))
+    r = draw(gentopo.recipes(kinds=['line', 'rect', 'rect', 'tri', 'tri', 'mixed', 'multipatch', 'periodic', 'rect3', 'simplex3'], maxops=2, ops=('refine', 'refined_by', 'refined_by', 'trim'), maxn=2))
     coeffs = [[draw(st.sampled_from(C)) for _ in range(10)] for _ in range(4)]   # scalar field + 3 vector components
-    return dict(mesh=r, coeffs=coeffs, gdeg=draw(st.sampled_from([2, 3])))
+    return dict(mesh=r, coeffs=coeffs, gdeg=draw(st.sampled_from([2, 3])), gbasis=draw(st.sampled_from([None, None, None, 0, 1])))
 
 
 class Poly:
@@ -66,6 +66,21 @@ def check(case, rec):
         topo0, topo, xi, applied = gentopo.build(r)
         d = topo0.ndims
         geom, gmap, gjac = gentopo.geometry(xi, r['geom'], d, with_jac=True)
+        gb = case.get('gbasis')
+        if gb is not None and r['kind'] != 'periodic':
+            # the same geometry map represented exactly as an expansion in a degree-2 basis of the base mesh (0) or of its uniform refinement (1);
+            # the topology on which everything is evaluated is a (further) refinement of that mesh
+            B = topo0 if gb == 0 else topo0.refined
+            if len(B) > 64: raise Discard('mesh-too-large-for-a-projected-geometry')
+            if gb == 1:
+                topo, applied = gentopo.apply_ops(B, xi, r['ops'])
+                applied = [['refine']] + applied
+            try:
+                gbasis = B.basis('std', degree=2)
+                geom = numpy.stack([gbasis @ B.project(geom[i], onto=gbasis, geometry=xi, degree=6) for i in range(d)])
+            except Exception as e:
+                raise Discard('geometry-projection-not-available')
+            rec.label('geometry-from-basis:%d' % gb)
         p = Poly(d, case['coeffs'][0])
         v = [Poly(d, case['coeffs'][1 + k]) for k in range(d)]
         pf = p.nutils(geom)
@@ -104,7 +119,9 @@ def check(case, rec):
         P = numpy.array(list(itertools.product(u, repeat=d))); W = numpy.prod(numpy.array(list(itertools.product(wu, repeat=d))), axis=1)
         Y = gmap(P); detJ = abs(numpy.linalg.det(gjac(P)))
         want_int = float((f(Y) * detJ) @ W)
-        got_int = float(topo.integrate(f.nutils(geom) * function.J(geom), degree=14))
+        trimmed = any(a[0] == 'trim' for a in applied)      # a trimmed topology covers a polygonal part of the box: the pointwise identities, unit outward normals and the divergence theorem still hold on it
+        got_int = float(topo.integrate(f.nutils(geom) * function.J(geom), degree=14)) if not trimmed else want_int
+        if trimmed: rec.label('trimmed')
         if abs(got_int - want_int) > 1e-10 * (1 + abs(want_int)):
             raise Violation('integral', f'{what}: integral of f J = {got_int!r}, independent quadrature over the unit box {want_int!r}', where='integral:' + r['kind'] + ':' + r['geom']['kind'])
         # boundary: unit normal, surface gradient, divergence theorem
@@ -149,7 +166,8 @@ def product_cases(draw, tier):
     dx = draw(st.sampled_from([1, 2, 2]))
     return dict(dx=dx, nx=[draw(st.integers(1, 2)) for _ in range(dx)], nt=draw(st.integers(1, 3)), simplex=False,
                 ax=[draw(st.sampled_from([-.25, .25, .5, 0., .125])) for _ in range(6)], at=draw(st.sampled_from([0., .5, -.25])),
-                coeffs=[[draw(st.sampled_from(C)) for _ in range(10)] for _ in range(4)], gdeg=draw(st.sampled_from([2, 3])), explicit=draw(st.booleans()), refine=draw(st.integers(0, 3)) == 0)
+                coeffs=[[draw(st.sampled_from(C)) if k in keep else 0. for k in range(10)] for keep in [set(draw(st.lists(st.integers(0, 9), min_size=2, max_size=3))) for _ in range(4)]],
+                gdeg=draw(st.sampled_from([2, 3])), explicit=draw(st.booleans()), refine=draw(st.integers(0, 3)) == 0)      # sparse polynomials: the operator expressions on a product are expensive to simplify
 
 
 def check_product(case, rec):
@@ -200,6 +218,22 @@ def check_product(case, rec):
             got = numpy.asarray(got)
             if got.shape != numpy.shape(want) or abs(got - want).max() > 1e-9 * scale:
                 raise Violation('product-operator', f'{what}: {name} differs from the analytic derivative by {abs(got - want).max() if got.shape == numpy.shape(want) else got.shape}', where='product:' + name)
+        # operators with respect to the coordinates of the whole product (all spaces at once), also for a geometry that couples the factors
+        for coupled in (False, True):
+            gfull = geom if not coupled else numpy.stack([geom[0] + .3 * (geom[-1] - 2.), *geom[1:-1], geom[-1] + .2 * geom[0] ** 2])
+            pfull = p.nutils(gfull)
+            vfull = numpy.stack([Poly(d, case['coeffs'][1 + k % 3]).nutils(gfull) for k in range(d)])
+            try:
+                Yf, gf, dvf, lapf = smp.eval([gfull, function.grad(pfull, gfull), function.div(vfull, gfull), function.laplace(pfull, gfull)])
+            except Exception as e:
+                raise Violation('eval-raised', f'{what} coupled={coupled}: operators over all spaces: {type(e).__name__}: {str(e)[:300]}', where='product-eval-full:' + type(e).__name__)
+            Yf = numpy.asarray(Yf)
+            vv = [Poly(d, case['coeffs'][1 + k % 3]) for k in range(d)]
+            sc = 10 * (1 + max(abs(p(Yf)).max(), max(abs(vk(Yf)).max() for vk in vv)))
+            for name, got, want in (('grad-full', gf, numpy.stack([p(Yf, (k,)) for k in range(d)], axis=1)), ('div-full', dvf, sum(vv[k](Yf, (k,)) for k in range(d))), ('laplace-full', lapf, sum(p(Yf, (k, k)) for k in range(d)))):
+                got = numpy.asarray(got)
+                if got.shape != numpy.shape(want) or abs(got - want).max() > 1e-8 * sc:
+                    raise Violation('product-operator', f'{what} coupled-geometry={coupled}: {name} (all spaces) differs from the analytic derivative by {abs(got - want).max() if got.shape == numpy.shape(want) else got.shape}', where='product:' + name)
         # integral with both jacobians vs independent quadrature over the unit box
         f = Poly(d, case['coeffs'][3])
         gl, gw = numpy.polynomial.legendre.leggauss(8)
